@@ -104,14 +104,14 @@ func (a *c10Actor) count(path string) (int, []int64) {
 }
 
 type c10Knobs struct {
-	Path      string // poisonpill | kill | stop-by-parent | parent-stop | supervisor-stop | passivation | self-shutdown | restart-then-kill
-	TopLevel  bool
-	Watchers  int
-	OpsEach   int
-	Racing    int // watchers whose operations run concurrently with the termination
-	WRestart  bool // one settled watcher is restarted before the termination
-	Procs     int
-	Noise     int
+	Path     string // poisonpill | kill | stop-by-parent | parent-stop | supervisor-stop | passivation | self-shutdown | restart-then-kill
+	TopLevel bool
+	Watchers int
+	OpsEach  int
+	Racing   int  // watchers whose operations run concurrently with the termination
+	WRestart bool // one settled watcher is restarted before the termination
+	Procs    int
+	Noise    int
 }
 
 func (k c10Knobs) String() string {
@@ -139,11 +139,11 @@ func c10GenKnobs(rng *rand.Rand, i int) c10Knobs {
 }
 
 type c10Watcher struct {
-	name     string
-	relation string // parent | sibling | unrelated
-	act      *c10Actor
-	pid      *PID
-	racing   bool
+	name      string
+	relation  string // parent | sibling | unrelated
+	act       *c10Actor
+	pid       *PID
+	racing    bool
 	restarted bool
 }
 
@@ -153,18 +153,19 @@ type c10Finding struct {
 }
 
 type c10Obs struct {
-	Knobs        c10Knobs
-	Findings     []c10Finding
-	Watchers     int
-	Exact1       int
-	Exact0       int
-	Open         int
-	OpsOverlap   int // watch/unwatch executions that overlapped a termination window
-	Terminated   int
-	Watchdog     string
-	HotSites     []string
-	Delays       int64
-	Script       []string
+	Knobs      c10Knobs
+	Findings   []c10Finding
+	Watchers   int
+	Exact1     int
+	Exact0     int
+	Open       int
+	OpsOverlap int // watch/unwatch executions that overlapped a termination window
+	Terminated int
+	Watchdog   string
+	Skipped    string
+	HotSites   []string
+	Delays     int64
+	Script     []string
 }
 
 type c10Window struct{ Begin, End int64 }
@@ -278,6 +279,26 @@ func c10RunCase(t *testing.T, k c10Knobs, seed int64) (obs c10Obs) {
 		})
 	}
 
+	// registeredAfterRestart waits for the death watch to drain and reports whether pid is still in the
+	// tree: the death watch may delete the node of an actor that was restarted meanwhile (C09's verdict)
+	registeredAfterRestart := func(pid *PID) bool {
+		dw := sys.getDeathWatch()
+		streak := 0
+		verifrt.WaitUntil(20*time.Second, func() bool {
+			if dw.mailbox.IsEmpty() && dw.systemMailbox.IsEmpty() && dw.schedState.v.Load() == dispatchIdle {
+				streak++
+			} else {
+				streak = 0
+			}
+			if streak < 4 {
+				time.Sleep(200 * time.Microsecond)
+			}
+			return streak >= 4
+		})
+		n, reg := sys.tree().node(pid.ID())
+		return reg && n.value() == pid
+	}
+
 	// phase A: settled watchers run their whole script; optionally one of them is restarted
 	for wi, w := range watchers {
 		if !w.racing {
@@ -294,6 +315,13 @@ func c10RunCase(t *testing.T, k c10Knobs, seed int64) (obs c10Obs) {
 				op.End = lg.seq.Add(1)
 				lg.record(op)
 				w.restarted = true
+				if !registeredAfterRestart(w.pid) {
+					obs.Skipped = "a restarted watcher is not registered in the tree after Restart returned (owned by C09)"
+					if k.Noise > 0 {
+						_, obs.Delays = verifrt.StopNoise()
+					}
+					return obs
+				}
 				if rng.Intn(2) == 0 {
 					exec(w, "watch", rng)
 				}
@@ -377,6 +405,18 @@ func c10RunCase(t *testing.T, k c10Knobs, seed int64) (obs c10Obs) {
 		ok = terminate("restart")
 		wg.Wait()
 		if ok {
+			// The death watch handles the old incarnation's Terminated asynchronously and may delete
+			// the node of the already restarted watchee (C09 reports that as live-actor-not-registered).
+			// Such a watchee cannot be watched or killed by name any more: the case is left to C09.
+			if !registeredAfterRestart(wee) {
+				obs.Skipped = "the restarted watchee is not registered in the tree after Restart returned (owned by C09)"
+				if k.Noise > 0 {
+					_, obs.Delays = verifrt.StopNoise()
+				}
+				return obs
+			}
+		}
+		if ok {
 			// some watchers watch the new incarnation
 			for wi, w := range watchers {
 				if rng.Intn(2) == 0 {
@@ -439,7 +479,7 @@ func c10RunCase(t *testing.T, k c10Knobs, seed int64) (obs c10Obs) {
 		}
 		lo, hi := 0, 0 // allowed range of the total
 		desc := ""
-		watching := false  // state established by executions that ended before the current point
+		watching := false                  // state established by executions that ended before the current point
 		implicit := w.relation == "parent" // the tree registers a parent as watcher of its child at spawn
 		unknown := false
 		idx := 0
